@@ -17,13 +17,13 @@ RULE = ('Zones as in C04 (fixed offsets, real and synthetic TZif files incl. neg
         '> 2 pre-images are counted and skipped.  Non-trivial = wall time inside or at the edge of a gap / fold; distinct = '
         '(zone, transition, position class, fold).')
 ASSUMPTIONS = ['truth models as in C04 (TZif reader, POSIX evaluator)', 'tzfile: wall times whose pre-images could lie after the last '
-               'recorded transition are not claimed', 'known finding K5 (resolve_imaginary across gaps wider than 24 h or with a second '
+               'recorded transition are not claimed', 'mechanism K5 (resolve_imaginary across gaps wider than 24 h or with a second '
                'offset change within 24 h) is classified on the truth model']
 MANIFEST = {
     'technique': 'runtime differential monitor: datetime_exists / datetime_ambiguous / fold resolution / resolve_imaginary on wall times around every gap and fold vs pre-image sets from independent zone models',
     'level_text': 'Every gap and fold of the sampled real zones (thorough: whole database), of synthetic TZif shapes and of random '
                   'POSIX rules is probed at second resolution at its edges and middle with both fold values; the classification '
-                  'is decided by an independent pre-image computation.  Exploration level; K5 classified by mechanism.',
+                  'is decided by an independent pre-image computation.  Exploration level; a resolve_imaginary mismatch in the K5 situation (repaired in the repository) is reported as a violation like any other.',
     'level_note': 'Trusts the truth models and CPython datetime; rule zones are probed for three years including a leap year.',
 }
 PLAN = {'quick': {'shards': 4, 'timeout': 1800, 'budget': 900},
